@@ -4,6 +4,7 @@
 package main
 
 import (
+	"context"
 	"flag"
 	"fmt"
 	"os"
@@ -564,10 +565,28 @@ func raceSupplement(r *ev.Report) {
 	if r.Thorough() {
 		rounds = "100"
 	}
-	cmd := exec.Command(bin, "-race-bodies", rounds)
+	// the bodies normally take seconds; the bound only matters when one of them never returns
+	// (a deadlock in free-running mode), which must not hang the check
+	limit := 10 * time.Minute
+	if r.Thorough() {
+		limit = 40 * time.Minute
+	}
+	ctx, cancel := context.WithTimeout(context.Background(), limit)
+	defer cancel()
+	cmd := exec.CommandContext(ctx, bin, "-race-bodies", rounds)
 	cmd.Env = append(os.Environ(), "GORACE=halt_on_error=0", "GOMAXPROCS=16")
+	cmd.WaitDelay = 2 * time.Second
 	out, _ := cmd.CombinedOutput()
 	text := string(out)
+	if i := strings.Index(text, "race-bodies: HUNG in "); i >= 0 {
+		name := strings.Fields(text[i+len("race-bodies: HUNG in "):])[0]
+		r.Violation("race-supplement:hang:"+name[:strings.Index(name+"-", "-")], replay{name, nil, []string{"free-running (real goroutines, real sync): the scenario body did not return within 3 minutes (deadlock)"}})
+		return
+	}
+	if ctx.Err() != nil {
+		r.Violation("race-supplement:hang", replay{"race-bodies", nil, []string{fmt.Sprintf("the free-running pass did not finish within %s: a scenario body never returns (deadlock)", limit), trunc(text)}})
+		return
+	}
 	n := strings.Count(text, "WARNING: DATA RACE")
 	r.Extra["race_supplement_rounds"] = rounds
 	r.Extra["race_supplement_reports"] = n
@@ -612,12 +631,25 @@ func main() {
 	os.Setenv("VERIF_DIR_BIN", ev.VerifDir()+"/bin")
 	if *raceRounds > 0 {
 		raceMode = true
+		// a body that never returns is a deadlock of the free-running code: say which one and stop
+		guarded := func(name string, f func()) {
+			done := make(chan struct{})
+			go func() { f(); close(done) }()
+			select {
+			case <-done:
+			case <-time.After(3 * time.Minute):
+				fmt.Printf("race-bodies: HUNG in %s\n", name)
+				os.Exit(7)
+			}
+		}
 		for round := 0; round < *raceRounds; round++ {
 			for _, sc := range uiScenarios() {
-				runUI(sc, nil)
+				sc := sc
+				guarded(sc.Name, func() { runUI(sc, nil) })
 			}
 			for _, sc := range pubScenarios() {
-				runPub(sc, nil)
+				sc := sc
+				guarded(sc.Name, func() { runPub(sc, nil) })
 			}
 		}
 		fmt.Println("race-bodies: done")
